@@ -21,7 +21,83 @@ import (
 	"verif/simdisk"
 )
 
-func init() { engines["C09"] = runFormat }
+func init() {
+	engines["C09"] = func() *ShardResult {
+		total := *fBudget
+		*fBudget = total * 2 / 3
+		res := runFormat()
+		*fBudget = total / 3
+		res.merge(runFormatCrash(), "crash_")
+		*fBudget = total
+		return res
+	}
+}
+
+// runFormatCrash: the format after a recovery. Every crash image of short workloads is recovered by Open, one
+// more batch is appended and the WAL is closed; the files then have to be readable by the independent decoder
+// (magic, header, frame chain, commit CRCs, index) and hold exactly what the recovered WAL shows.
+func runFormatCrash() *ShardResult {
+	res := newResult()
+	cc := core.CrashCfg{ChunkCap: 1 << 10, Shard: *fShard, NShards: *fNShards, MaxFindings: 20, Depth: 1, ExpandPerClass: 3}
+	if *fTier == "thorough" {
+		cc.Depth, cc.ChunkCap, cc.ExpandPerClass = 2, 1<<14, 8
+	}
+	cc.WorkLen = func(l int) int { return wlen([]int{0, 3, 1}, l) }
+	cc.Alpha = func(l int, m *core.Model) []core.Op {
+		ops := appendOps(m, [][]int{{4}, {3, 6}, {20, 4}})
+		return append(ops, delOps(m, true, true)...)
+	}
+	cc.LeafHook = formatLeafHook(res)
+	cfgs := []core.Config{{SegSize: 128}, {SegSize: 64}, {SegSize: 4096}}
+	res.Bounds["depth"] = cc.Depth
+	res.Bounds["configs"] = cfgs
+	start := time.Now()
+	for ci, cfg := range cfgs {
+		st := &core.CrashStats{}
+		cc.Deadline = start.Add(*fBudget * time.Duration(ci+1) / time.Duration(len(cfgs)))
+		e := core.NewCrashEngine(cc, cfg, st)
+		e.Run()
+		for _, f := range e.Findings {
+			if f.Prop == "C09" {
+				res.Findings = append(res.Findings, f)
+			}
+		}
+		res.Counts["images_checked"] += int64(st.Images)
+		res.Counts["recoveries_run"] += int64(st.Recoveries)
+		res.Counts["transitions"] += int64(st.Images)
+		res.Counts["evaluations"] += int64(st.Images)
+		res.Counts["traces_validated"] += int64(st.Workloads + st.Recoveries)
+		for h := range st.ImgHashes {
+			res.Sets["states"] = append(res.Sets["states"], cfgName(cfg)+":"+h[:14])
+		}
+		if st.DeadlineHit || st.CappedPoints > 0 || st.LevelsDone < cc.Depth {
+			res.Exhaustive = false
+		}
+	}
+	return res
+}
+
+func formatLeafHook(res *ShardResult) func(st *simdisk.State, cfg core.Config, m *core.Model) []core.Violation {
+	return func(st *simdisk.State, cfg core.Config, m *core.Model) []core.Violation {
+		next := m.Last + 1
+		if m.Last == 0 {
+			next = 7
+		}
+		ops := []core.Op{{K: "A", Idx: next, Sizes: []int{5, 2}, Gen: 700}}
+		eo := &endOracle{model: m.Clone(), n: 1, what: "after recovery of this image, one more batch and a clean Close: "}
+		sr := core.RunSession(st, cfg, ops, core.SessionOpts{CmpProp: "C05", CloseAtEnd: true, AfterStep: eo.afterStep})
+		if res != nil {
+			res.Counts["segment_files_compared"] += int64(eo.checked)
+		}
+		var vs []core.Violation
+		for _, v := range sr.Viol {
+			if v.Prop == "C09" {
+				vs = append(vs, v)
+			}
+		}
+		return vs
+	}
+}
 
 type segTrack struct {
 	base, id uint64
@@ -209,6 +285,123 @@ func (fo *formatOracle) afterStep(i int, op core.Op, err error, s *core.Sys) []c
 	return vs
 }
 
+// endOracle checks only the state a whole sequence leaves behind (used for the variant that does not wait
+// for background rotations between calls, where the per-batch bookkeeping of formatOracle does not apply):
+// the metadata record decodes, every listed segment has a file whose header agrees with name and record, the
+// files decode independently, sealed segments carry an index at IndexStart that matches their frames, the
+// listed ranges are contiguous, and the entries decoded independently are exactly the model's.
+type endOracle struct {
+	model   *core.Model
+	n       int
+	checked int
+	what    string
+}
+
+func (eo *endOracle) afterStep(i int, op core.Op, err error, s *core.Sys) []core.Violation {
+	if i > 0 && err == nil {
+		nm := eo.model.Clone()
+		if !core.ApplyModel(nm, op) {
+			eo.model = nm
+		}
+	}
+	if i != eo.n || s.W == nil {
+		return nil
+	}
+	var vs []core.Violation
+	bad := func(f string, a ...interface{}) {
+		what := eo.what
+		if what == "" {
+			what = "state left by the sequence (no waiting for rotations between calls): "
+		}
+		vs = append(vs, core.Violation{Prop: "C09", Msg: what + fmt.Sprintf(f, a...)})
+	}
+	cur, derr := core.DecodeMeta(s.MetaRaw())
+	if derr != nil {
+		bad("metadata record is not the documented JSON: %v", derr)
+		return vs
+	}
+	img := s.Disk.Volatile()
+	got := map[uint64]*raft.Log{}
+	var prev *types.SegmentInfo
+	for k := range cur.Segments {
+		sg := &cur.Segments[k]
+		eo.checked++
+		name := fmtspec.FileName(sg.BaseIndex, sg.ID)
+		sealed := !sg.SealTime.IsZero()
+		if prev != nil {
+			if prev.SealTime.IsZero() {
+				bad("%s follows an unsealed segment", name)
+			} else if sg.BaseIndex != prev.MaxIndex+1 || sg.ID <= prev.ID {
+				bad("%s (BaseIndex %d ID %d) does not continue the previous segment (MaxIndex %d ID %d)", name, sg.BaseIndex, sg.ID, prev.MaxIndex, prev.ID)
+			}
+		}
+		prev = sg
+		file, ok := img.Files[name]
+		if !ok {
+			bad("segment ID %d BaseIndex %d: no file named %s in %v", sg.ID, sg.BaseIndex, name, img.Names())
+			continue
+		}
+		if allZero(file) && !sealed {
+			continue
+		}
+		d, e := fmtspec.DecodeSegment(file)
+		if e != nil {
+			bad("%s: independent decoder: %v", name, e)
+			continue
+		}
+		if d.Header.BaseIndex != sg.BaseIndex || d.Header.ID != sg.ID || d.Header.Codec != sg.Codec {
+			bad("%s: header %+v disagrees with file name / metadata", name, d.Header)
+		}
+		lo, hi := sg.MinIndex, sg.MaxIndex
+		if sealed {
+			if d.IndexStart == 0 || sg.IndexStart != d.IndexStart {
+				bad("%s: metadata IndexStart %d, committed index array at %d", name, sg.IndexStart, d.IndexStart)
+			} else if len(d.IndexArr) != len(d.Offsets) {
+				bad("%s: index frame has %d offsets for %d entries", name, len(d.IndexArr), len(d.Offsets))
+			} else {
+				for j := range d.IndexArr {
+					if d.IndexArr[j] != d.Offsets[j] {
+						bad("%s: index offset %d is %d, entry frame is at %d", name, j, d.IndexArr[j], d.Offsets[j])
+						break
+					}
+				}
+			}
+		} else {
+			if len(d.Payloads) == 0 {
+				continue
+			}
+			hi = sg.BaseIndex + uint64(len(d.Payloads)) - 1
+		}
+		for idx := lo; idx <= hi && hi > 0; idx++ {
+			pos := idx - sg.BaseIndex
+			if pos >= uint64(len(d.Payloads)) {
+				bad("%s: metadata says it holds index %d but the file has only %d entries", name, idx, len(d.Payloads))
+				break
+			}
+			l, e := fmtspec.DecodeLog(d.Payloads[pos])
+			if e != nil {
+				bad("%s: entry %d does not decode independently: %v", name, idx, e)
+				break
+			}
+			got[idx] = &raft.Log{Index: l.Index, Term: l.Term, Type: raft.LogType(l.Type), Data: l.Data, Extensions: l.Ext, AppendedAt: l.At}
+		}
+	}
+	if len(vs) == 0 {
+		n := 0
+		for idx := eo.model.First; idx <= eo.model.Last && eo.model.Last > 0; idx++ {
+			n++
+			if g := got[idx]; g == nil || !core.LogsEqual(g, eo.model.E[idx]) {
+				bad("entry %d read independently from the files is not what was stored", idx)
+				break
+			}
+		}
+		if len(vs) == 0 && len(got) != n {
+			bad("the files hold %d entries in the listed ranges, the log has %d [%d,%d]", len(got), n, eo.model.First, eo.model.Last)
+		}
+	}
+	return vs
+}
+
 func allZero(b []byte) bool {
 	for _, x := range b {
 		if x != 0 {
@@ -316,6 +509,22 @@ func runFormat() *ShardResult {
 				finals[fmt.Sprintf("seg%d:%s", cfg.SegSize, fo.model.Sig())] = true
 				for _, v := range sr.Viol {
 					add(v.Msg, cur, cfg)
+				}
+				if len(cur) >= 2 && len(cur) < depth {
+					// the same calls without waiting for the background rotation in between, then a clean reopen
+					full := append(append([]core.Op{}, cur...), core.Op{K: "R"})
+					for _, stop := range []int{len(cur), len(full)} {
+						eo := &endOracle{model: core.NewModel(), n: stop}
+						sys2 := core.Mount(simdisk.NewState(), cfg)
+						lr := core.RunSession(nil, cfg, full[:stop], core.SessionOpts{Sys: sys2, CmpProp: "C05", CloseAtEnd: true, Lazy: true, AfterStep: eo.afterStep})
+						sys2.Unmount()
+						res.Counts["lazy_rotation_runs"]++
+						res.Counts["traces_validated"]++
+						res.Counts["segment_files_compared"] += int64(eo.checked)
+						for _, v := range lr.Viol {
+							add("[lazy rotation] "+v.Msg, full[:stop], cfg)
+						}
+					}
 				}
 				if len(res.Samples) < 2 && len(cur) == depth && fo.checked > 6 {
 					res.Samples = append(res.Samples, map[string]interface{}{"config": cfg, "ops": core.OpsString(cur), "segment_files_compared": fo.checked})
